@@ -5,6 +5,7 @@
 package main
 
 import (
+	"testing/iotest"
 	"github.com/go-netty/go-netty/codec/frame"
 	"github.com/go-netty/go-netty/codec/format"
 	"encoding/binary"
@@ -442,11 +443,24 @@ func streamOps(rng *rand.Rand, _ bool) {
 		go func(g int) {
 			defer wg.Done()
 			for i := 0; i < 4; i++ {
-				ch.Write(onlyReader{bytes.NewReader(bytes.Repeat([]byte{byte('a' + g)}, sizes[g][i]))})
+				var r io.Reader = bytes.NewReader(bytes.Repeat([]byte{byte('a' + g)}, sizes[g][i]))
+				if i%2 == 1 { // a reader that hands out its last bytes together with io.EOF
+					r = iotest.DataErrReader(r)
+				}
+				ch.Write(onlyReader{r})
 				op()
 			}
 		}(g)
 	}
+	// … while a third goroutine writes small messages, whose copies come from the same pool class as the stream chunks
+	wg.Add(1)
+	go func() {
+		defer wg.Done()
+		for i := 0; i < 12; i++ {
+			ch.Write(bytes.Repeat([]byte{'z'}, 400+50*i))
+			op()
+		}
+	}()
 	wg.Wait()
 	ch.Close(nil)
 	bs.Shutdown()
